@@ -59,3 +59,63 @@ func init() {
 		}
 	})
 }
+
+func init() {
+	register("puborder", func() *Scenario {
+		return &Scenario{
+			Config: baseConfig(),
+			Actors: []ActorSpec{
+				{Name: "reader", Reader: &ReaderSpec{Backoff: true}},
+				{Name: "A", Ops: []Op{
+					{Kind: "pub1", Topic: "a/1", Msg: []byte("A1-aaaa")},
+					{Kind: "pub1", Topic: "a/2", Msg: []byte("A2-aaaa")},
+				}},
+				{Name: "B", Ops: []Op{
+					{Kind: "pub2", Topic: "b/1", Msg: []byte("B1-bbbb")},
+					{Kind: "pub2", Topic: "b/2", Msg: []byte("B2-bbbb")},
+				}},
+				{Name: "C", Ops: []Op{
+					{Kind: "pub1", Topic: "c/1", Msg: []byte("C1-cccc")},
+					{Kind: "pub2", Topic: "c/2", Msg: []byte("C2-cccc")},
+				}},
+			},
+			Faults:  Faults{Cut: true, DialErr: true, WriteCuts: cutsEdge, WriteErr: true, WriteTimeout: true, NoResponse: true},
+			Horizon: 1500,
+			Final: func(w *World) {
+				w.monitorWire()
+				w.monitorOrder()
+				w.monitorQoS2Out()
+				w.monitorDelivery("C01")
+			},
+		}
+	})
+	register("qos2out", func() *Scenario {
+		cfg := baseConfig()
+		cfg.ExactlyOnceMax = 2
+		return &Scenario{
+			Config: cfg,
+			Actors: []ActorSpec{
+				{Name: "reader", Reader: &ReaderSpec{Backoff: true}},
+				{Name: "A", Ops: []Op{
+					{Kind: "pub2", Topic: "q/1", Msg: []byte("Q1-aaaa")},
+					{Kind: "pub2", Topic: "q/2", Msg: []byte("Q2-bbbb")},
+					{Kind: "pub2r", Topic: "q/3", Msg: []byte("Q3-cccc")},
+				}},
+			},
+			Gens: [][]ActorSpec{
+				{{Name: "reader", Reader: &ReaderSpec{Backoff: true}}, {Name: "A", Ops: []Op{{Kind: "pub2", Topic: "q/4", Msg: []byte("Q4-dddd")}}}},
+				{{Name: "reader", Reader: &ReaderSpec{Backoff: true}}},
+			},
+			Faults: Faults{Cut: true, NoResponse: true, WriteLost: true, WriteCuts: cutsEdge, WriteErr: true, Crash: true,
+				Store: map[string]bool{"save": true, "delete": true}},
+			Horizon: 1500,
+			Final: func(w *World) {
+				w.monitorWire()
+				w.monitorOrder()
+				w.monitorQoS2Out()
+				w.monitorRestart()
+				w.monitorAllDelivered("C03")
+			},
+		}
+	})
+}
